@@ -175,10 +175,25 @@ Definition disp_ok (d : list N) : bool :=
   | [] => false
   end.
 
+(* arrays of each element kind, and trees: objects whose fields are scalars, such arrays, or objects again (C19_nested_round_trip) *)
+Definition arr_ok (v : jv) : bool :=
+  match v with
+  | JAI w xs => forallb (width_ok w) xs | JAF xs => forallb (fun x => disp_ok (snd x)) xs | JAS xs => forallb str_ok xs | JAB _ | JAN _ => true
+  | _ => false
+  end.
+Fixpoint tree_ok (v : jv) : bool :=
+  match v with
+  | JO fs => (fix go (l : list (list N * jv)) : bool := match l with [] => true | nv :: r => name_ok (fst nv) && tree_ok (snd nv) && go r end) fs
+             && distinct (map fst fs)
+  | JAO _ => false
+  | JAI _ _ | JAF _ | JAS _ | JAB _ | JAN _ => arr_ok v
+  | x => scalar_ok x
+  end.
+
 (* is the tree inside the domain of one of the round-trip theorems (Props/C19.v)?  printed by the model runner for every case *)
 Definition in_domain (v : jv) : bool :=
   match v with
-  | JO _ => flat_ok v
+  | JO _ => tree_ok v
   | JAI w xs => forallb (width_ok w) xs
   | JAF xs => forallb (fun x => disp_ok (snd x)) xs
   | JAS xs => forallb str_ok xs
